@@ -1759,6 +1759,7 @@ func (w *recWorld) judgeComplete(s *recSession, tag string) {
 	}
 	var videoOpen int64 = -1 // stamp at which the file of an audio+video recording was certainly open
 	var videoL0 time.Duration
+	var videoAge time.Duration
 	// video first: audio depends on when the file was opened
 	order := make([]*recSessTrack, len(s.trks))
 	copy(order, s.trks)
@@ -1946,6 +1947,12 @@ func (w *recWorld) judgeComplete(s *recSession, tag string) {
 				if ok, last, first := full(t.frames[f]); ok && t.frames[f].Key {
 					e0 = f
 					videoOpen, videoL0 = last.stamp, first.at
+					// how much later than its capture the key frame reached the
+					// recorder (late join: it was replayed from the cache); without
+					// sender reports the recorder takes it for captured on arrival
+					if a := first.at - (w.t0sim + time.Duration(t.frames[f].CapUs)*time.Microsecond); a > 0 {
+						videoAge = a
+					}
 					break
 				}
 			}
@@ -1978,6 +1985,18 @@ func (w *recWorld) judgeComplete(s *recSession, tag string) {
 					capAt := w.t0sim + time.Duration(f.CapUs)*time.Microsecond
 					if last.enter <= videoOpen || capAt < videoL0+time.Duration(w.maxDelay)*time.Microsecond+25*time.Millisecond {
 						continue
+					}
+					// a change of resolution starts a new file at the key frame
+					// that announces it: audio from around that instant (as the
+					// recorder sees it: arrival delays and the age of a replayed
+					// key frame shift the two tracks against each other) belongs
+					// to neither file for certain
+					if vt := w.trk[1]; vt != nil && vt.sp.ResAt > 0 && vt.sp.ResAt < len(vt.frames) {
+						kcap := w.t0sim + time.Duration(vt.frames[vt.sp.ResAt].CapUs)*time.Microsecond
+						slack := time.Duration(w.maxDelay)*time.Microsecond + 25*time.Millisecond + videoAge
+						if capAt > kcap-slack && capAt < kcap+slack {
+							continue
+						}
 					}
 				}
 				required++
